@@ -21,6 +21,38 @@ def sa_extra_transform(pl, sa):
     return pl
 
 
+def sa_two_proposals(pl, sa):
+    """a second, unacceptable proposal with ANOTHER SPI is put in front of the real one (RFC 7296 3.3 allows several
+    proposals with different SPIs); the real one becomes #2"""
+    m = _msg()
+    for p in pl:
+        if isinstance(p, m.PayloadSA) and p.proposals:
+            pr = p.proposals[0]
+            other = m.Proposal.Protocol.AH if pr.protocol_id == m.Proposal.Protocol.ESP else pr.protocol_id
+            spi = bytes(b ^ 0xA5 for b in bytes(pr.spi)) if pr.spi else pr.spi
+            bogus = m.Proposal(1, other, spi, [m.Transform(m.Transform.Type.INTEG, 5),
+                                               m.Transform(m.Transform.Type.ESN, 0)]
+                               if other != pr.protocol_id else
+                               [m.Transform(t.type, 3 if t.type == m.Transform.Type.ENCR else t.id,
+                                            None if t.type == m.Transform.Type.ENCR else t.keylen) for t in pr.transforms])
+            p.proposals = [bogus, m.Proposal(2, pr.protocol_id, pr.spi, list(pr.transforms))] + list(p.proposals[1:])
+    return pl
+
+
+def sa_foreign_first(pl, sa):
+    """transforms nobody offered (AES-CBC/192, HMAC-SHA1-96) are listed AHEAD of the negotiated ones"""
+    m = _msg()
+    for p in pl:
+        if isinstance(p, m.PayloadSA):
+            pr = p.proposals[0]
+            extra = []
+            if any(t.type == m.Transform.Type.ENCR for t in pr.transforms):
+                extra.append(m.Transform(m.Transform.Type.ENCR, 12, 192))
+            extra.append(m.Transform(m.Transform.Type.INTEG, 2))
+            p.proposals[0] = m.Proposal(pr.num, pr.protocol_id, pr.spi, extra + list(pr.transforms))
+    return pl
+
+
 def sa_unsupported(pl, sa):
     m = _msg()
     for p in pl:
@@ -219,7 +251,8 @@ def add_error_notify(pl, sa):
 
 
 MUTATORS = {
-    'sa_extra_transform': sa_extra_transform, 'sa_unsupported': sa_unsupported, 'sa_spi_long': sa_spi_long,
+    'sa_extra_transform': sa_extra_transform, 'sa_two_proposals': sa_two_proposals,
+    'sa_foreign_first': sa_foreign_first, 'sa_unsupported': sa_unsupported, 'sa_spi_long': sa_spi_long,
     'ts_wider': ts_wider, 'ts_other_port': ts_other_port, 'ts_elsewhere': ts_elsewhere, 'mode_flip': mode_flip,
     'id_data': id_data, 'id_type': id_type, 'id_case': id_case, 'sa_spi_short': sa_spi_short,
     'as_new_child_request': as_new_child_request, 'auth_garbage': auth_garbage, 'auth_method': auth_method,
